@@ -27,7 +27,9 @@ struct strto_integer_result {
 /// an optional "0x" or "0X" that is followed by a hexadecimal digit. The digits are
 /// converted by to_integer in the unsigned type, so to_integer (and from_chars on top
 /// of it) keeps its own grammar, which has no '+'. A '-' in front of an unsigned
-/// conversion negates in the unsigned type (strtoul("-1") is ULONG_MAX). If no
+/// conversion negates in the unsigned type (strtoul("-1") is ULONG_MAX). A value
+/// outside of the range of Int gives the nearest limit with end behind the digits
+/// (there is no errno in a freestanding library to report ERANGE with). If no
 /// conversion can be performed, end is str.data() and value is 0.
 template <integral Int>
 [[nodiscard]] constexpr auto strto_integer(string_view str, int base) noexcept -> strto_integer_result<Int>
@@ -55,10 +57,26 @@ template <integral Int>
         pos += 2;
     }
 
+    // out of range: the nearest limit of Int, which for unsigned types is max() with either sign
+    auto const saturated = [negative]() -> Int {
+        if constexpr (signed_integral<Int>) {
+            return negative ? numeric_limits<Int>::min() : numeric_limits<Int>::max();
+        } else {
+            return numeric_limits<Int>::max();
+        }
+    }();
+
     constexpr auto options = to_integer_options{.skip_whitespace = false, .check_overflow = true};
     auto const digits      = to_integer<UInt, options>(str.substr(pos), static_cast<UInt>(base));
-    if (digits.error != to_integer_error::none) {
+    if (digits.error == to_integer_error::invalid_input) {
         return failure;
+    }
+    if (digits.error == to_integer_error::overflow) {
+        // the text is consumed up to the end of the digits: a pass without the
+        // overflow check (unsigned arithmetic wraps) finds it
+        constexpr auto unchecked = to_integer_options{.skip_whitespace = false, .check_overflow = false};
+        auto const all           = to_integer<UInt, unchecked>(str.substr(pos), static_cast<UInt>(base));
+        return {.end = all.end, .value = saturated};
     }
 
     auto const magnitude = digits.value;
@@ -66,7 +84,7 @@ template <integral Int>
         // largest magnitude: max() for a positive, max() + 1 for a negative number
         auto const limit = static_cast<UInt>(static_cast<UInt>(numeric_limits<Int>::max()) + static_cast<UInt>(negative));
         if (magnitude > limit) {
-            return failure;
+            return {.end = digits.end, .value = saturated};
         }
     }
 
